@@ -111,12 +111,31 @@ type c01Must struct {
 	mt        string                 // the media type assumed (for helpers called per kind)
 	isMT      func(v ssa.Value) bool // recognises loads of Descriptor.MediaType
 	depth     int
+	params    map[*ssa.Parameter]c01Arg // what the helper's parameters stand for at this call
 }
 
-func newC01Must(fn *ssa.Function, k *cut) *c01Must {
-	m := &c01Must{fn: fn, k: k, nilEdges: map[string][]Edge{}, undecided: map[string]bool{}, memo: map[ssa.Value]c01Set{}, inprog: map[ssa.Value]bool{}}
+// c01Arg: what a helper parameter stands for at one call site.
+type c01Arg struct {
+	set    *c01Set // the decoded members the argument carries (e.g. manifest.Subject -> {subject})
+	isBool bool    // a constant flag
+	val    bool
+}
+
+func newC01Must(fn *ssa.Function, k *cut, params map[*ssa.Parameter]c01Arg) *c01Must {
+	m := &c01Must{fn: fn, k: c01CutUnion(k), nilEdges: map[string][]Edge{}, undecided: map[string]bool{}, memo: map[ssa.Value]c01Set{}, inprog: map[ssa.Value]bool{}, params: params}
 	for _, i := range Ifs(fn) {
 		cond, t, f := ifEdges(i)
+		// a constant flag parameter decides its branches
+		if prm, isParam := cond.(*ssa.Parameter); isParam {
+			if a, ok := params[prm]; ok && a.isBool {
+				if a.val {
+					m.k.Edges(f)
+				} else {
+					m.k.Edges(t)
+				}
+			}
+			continue
+		}
 		bo, ok := cond.(*ssa.BinOp)
 		if !ok || (bo.Op != token.EQL && bo.Op != token.NEQ) {
 			continue
@@ -129,14 +148,24 @@ func newC01Must(fn *ssa.Function, k *cut) *c01Must {
 		} else {
 			continue
 		}
-		p, ok := c01ValuePath(x)
-		if !ok || len(p.JSON) != 1 {
+		name := ""
+		if prm, isParam := x.(*ssa.Parameter); isParam {
+			// a pointer parameter standing for exactly one decoded member (subjectNodes(manifest.Subject))
+			if a, ok := params[prm]; ok && a.set != nil && len(a.set.m) == 1 {
+				for n := range a.set.m {
+					name = n
+				}
+			}
+		} else if p, ok := c01ValuePath(x); ok && len(p.JSON) == 1 {
+			name = p.JSON[0]
+		}
+		if name == "" {
 			continue
 		}
 		if bo.Op == token.NEQ {
 			t = f
 		}
-		m.nilEdges[p.JSON[0]] = append(m.nilEdges[p.JSON[0]], t)
+		m.nilEdges[name] = append(m.nilEdges[name], t)
 	}
 	return m
 }
@@ -180,7 +209,23 @@ func (m *c01Must) viaHelper(call *ssa.Call) (c01Set, bool) {
 	if g == nil || !inModule(g) || len(g.Blocks) == 0 || m.depth >= 3 || m.isMT == nil || g == m.fn {
 		return c01Set{}, false
 	}
-	set, n, und := c01CoverageDepth(g, c01StrTests(g, m.isMT), m.mt, m.isMT, m.depth+1)
+	params := map[*ssa.Parameter]c01Arg{}
+	for i, a := range call.Call.Args {
+		if i >= len(g.Params) {
+			break
+		}
+		if k, isK := a.(*ssa.Const); isK && k.Value != nil {
+			if b, isB := k.Type().Underlying().(*types.Basic); isB && b.Info()&types.IsBoolean != 0 {
+				params[g.Params[i]] = c01Arg{isBool: true, val: boolConst(k)}
+				continue
+			}
+		}
+		if c01DescriptorCarrier(a.Type()) {
+			st := m.must(a)
+			params[g.Params[i]] = c01Arg{set: &st}
+		}
+	}
+	set, n, und := c01CoverageDepth(g, c01StrTests(g, m.isMT), m.mt, m.isMT, m.depth+1, params)
 	for _, u := range und {
 		m.undecided[u] = true
 	}
@@ -196,6 +241,10 @@ func (m *c01Must) must1(v ssa.Value) c01Set {
 		return s
 	}
 	switch u := v.(type) {
+	case *ssa.Parameter:
+		if a, ok := m.params[u]; ok && a.set != nil {
+			return *a.set
+		}
 	case *ssa.Const, *ssa.MakeSlice:
 		return empty
 	case *ssa.Phi:
@@ -285,12 +334,12 @@ func (m *c01Must) must1(v ssa.Value) c01Set {
 // c01CoverageOf evaluates, for one function and one media-type case, which
 // link members every feasible successful return contains.
 func c01CoverageOf(fn *ssa.Function, tests []c01StrTest, mt string, isMT func(v ssa.Value) bool) (set c01Set, nReturns int, undecided []string) {
-	return c01CoverageDepth(fn, tests, mt, isMT, 0)
+	return c01CoverageDepth(fn, tests, mt, isMT, 0, nil)
 }
 
-func c01CoverageDepth(fn *ssa.Function, tests []c01StrTest, mt string, isMT func(v ssa.Value) bool, depth int) (set c01Set, nReturns int, undecided []string) {
-	k := c01CaseCut(tests, mt)
-	m := newC01Must(fn, k)
+func c01CoverageDepth(fn *ssa.Function, tests []c01StrTest, mt string, isMT func(v ssa.Value) bool, depth int, params map[*ssa.Parameter]c01Arg) (set c01Set, nReturns int, undecided []string) {
+	m := newC01Must(fn, c01CaseCut(tests, mt), params)
+	k := m.k
 	m.mt, m.isMT, m.depth = mt, isMT, depth
 	acc := c01Set{top: true}
 	errIdx := ErrResultIndex(fn.Signature)
@@ -299,7 +348,13 @@ func c01CoverageDepth(fn *ssa.Function, tests []c01StrTest, mt string, isMT func
 			continue
 		}
 		nReturns++
-		acc = c01Inter(acc, m.must(r.Results[0]))
+		st := m.must(r.Results[0])
+		for f, ne := range m.nilEdges {
+			if MustPass(r, c01CutUnion(k, newCut().Edges(ne...))) {
+				st = st.with(f) // this return is reached only with the member nil: nothing to return for it
+			}
+		}
+		acc = c01Inter(acc, st)
 	}
 	for u := range m.undecided {
 		undecided = append(undecided, u)
